@@ -263,8 +263,11 @@ class FormulaManager(object):
         if not exponent.is_constant():
             raise PysmtValueError("The exponent of POW must be a constant.", exponent)
 
-        if base.is_constant() and \
+        if (base.is_int_constant() and exponent.is_int_constant() or
+            base.is_real_constant() and exponent.is_real_constant()) and \
            not (base.is_zero() and exponent.constant_value() < 0):
+            # (only well-typed applications are folded: the others are
+            # refused by the type-check of the node)
             # (0 to a negative power is a division by zero: not folded)
             # (exact also for an integer base with a negative exponent)
             val = fractions.Fraction(cast(Union[int, fractions.Fraction], base.constant_value())) ** cast(Union[int, fractions.Fraction], exponent.constant_value())
